@@ -114,4 +114,11 @@ EXPANSION_DOCS = [
     ('<!DOCTYPE r [<!ENTITY c "y"><!ENTITY b "&c;"><!ENTITY a "&b;|&c;">]><r t="&a;&a;">&a;&c;</r>', "y|yy", "y|yy|y"),
     ('<!DOCTYPE r [<!ENTITY b "&#65;&amp;"><!ENTITY a "[&b;&b;]">]><r t="&a;">&a;<k>&b;</k>&b;</r>', "[A&A&]A&A&", "[A&A&]"),
     ('<!DOCTYPE r [<!ENTITY e "v">]><r t="&e;&e;&e;">&e;<![CDATA[&e;]]>&e;&#x41;</r>', "v&e;vA", "vvv"),
+    # attribute values of a declared tokenized type (XML 1.0 3.3.3): character references to white space are appended as the
+    # characters they denote and survive; only #x20 is trimmed / collapsed afterwards; Unicode spaces are ordinary characters
+    ('<!DOCTYPE r [<!ATTLIST r t NMTOKENS #IMPLIED>]><r t=" x&#10;y&#9;  z ">k</r>', "k", "x\ny\t z"),
+    ('<!DOCTYPE r [<!ATTLIST r t IDREFS #IMPLIED>]><r t="a\u00a0b  c\u3000">k</r>', "k", "a\u00a0b c\u3000"),
+    ('<!DOCTYPE r [<!ATTLIST r t (x|y) #IMPLIED>]><r t="  x&#13;  ">k</r>', "k", "x\r"),
+    ('<!DOCTYPE r [<!ATTLIST r t CDATA #IMPLIED>]><r t=" x&#10;y\t  z ">k</r>', "k", " x\ny   z "),
+    ('<!DOCTYPE r [<!ATTLIST r t ID #IMPLIED>]><r t="\n a \r\n">k</r>', "k", "a"),
 ]
